@@ -945,6 +945,75 @@ theorem scan_pass (h0 : List Str) (raws more : List Bytes) (hnb : ∀ r ∈ raws
       simp
 
 
+/-! ### complete lines, the buffered fragment, and the whole stream -/
+
+theorem cutLines_cons_lf (bs : Bytes) :
+    cutLines (0x0a :: bs) = ([0x0a] :: (cutLines bs).1, (cutLines bs).2) := by
+  simp [cutLines]
+
+/-- cutting the complete lines off a prefix and going on with the fragment is the same as
+    cutting the whole -/
+theorem splitLines_append (x r : Bytes) :
+    splitLines (x ++ r) = (cutLines x).1 ++ splitLines ((cutLines x).2 ++ r) := by
+  induction x with
+  | nil => simp [cutLines]
+  | cons b x ih =>
+    by_cases hb : b = 0x0a
+    · subst hb
+      rw [cutLines_cons_lf]
+      simp [splitLines, ih]
+    · simp only [List.cons_append, splitLines, hb, if_false, cutLines]
+      rw [ih]
+      cases hc : (cutLines x).1 with
+      | nil => simp [splitLines, hb]
+      | cons l ls => simp
+
+theorem splitLines_nolf (l : Bytes) (hne : l ≠ []) (h : (0x0a : UInt8) ∉ l) : splitLines l = [l] := by
+  induction l with
+  | nil => exact absurd rfl hne
+  | cons b l ih =>
+    have hb : b ≠ 0x0a := by intro hb; apply h; simp [hb]
+    have hl : (0x0a : UInt8) ∉ l := by intro hl; apply h; simp [hl]
+    simp only [splitLines, hb, if_false]
+    cases l with
+    | nil => simp [splitLines]
+    | cons c l' => rw [ih (by simp) hl]
+
+theorem scan_append_some (h0 : List Str) (a c : List Bytes) (b : Banner) (h : List Str) (rest : List Bytes)
+    (hs : scan h0 a = (some b, h, rest)) : scan h0 (a ++ c) = (some b, h, rest ++ c) := by
+  induction a generalizing h0 with
+  | nil => simp [scan] at hs
+  | cons r a ih =>
+    simp only [List.cons_append, scan] at hs ⊢
+    split
+    · next hb => simp only [hb, if_true] at hs; exact ih h0 hs
+    · next hb =>
+      simp only [hb] at hs
+      split
+      · next b' hp =>
+        simp only [hp, Bool.false_eq_true, if_false] at hs
+        simp only [Prod.mk.injEq] at hs ⊢
+        exact ⟨hs.1, hs.2.1, by rw [hs.2.2]⟩
+      · next hp =>
+        simp only [hp, Bool.false_eq_true, if_false] at hs
+        exact ih _ hs
+
+theorem scan_append_none (h0 : List Str) (a c : List Bytes) (h : List Str) (rest : List Bytes)
+    (hs : scan h0 a = (none, h, rest)) : scan h0 (a ++ c) = scan h c := by
+  induction a generalizing h0 with
+  | nil => simp only [scan, Prod.mk.injEq] at hs; simp [hs.2.1]
+  | cons r a ih =>
+    simp only [List.cons_append, scan] at hs ⊢
+    split
+    · next hb => simp only [hb, if_true] at hs; exact ih h0 hs
+    · next hb =>
+      simp only [hb] at hs
+      split
+      · next b' hp => simp [hp] at hs
+      · next hp =>
+        simp only [hp, Bool.false_eq_true, if_false] at hs
+        exact ih _ hs
+
 /-! ### the order on protocol items (Python's `<` on tuples of strings) -/
 
 theorem ltStr_cons (x y : Char) (xs ys : Str) :
